@@ -237,6 +237,9 @@ def check_window_state(run, rule):
 
 
 def check(run):
+    # what the decoder remembers about the bytes in its window is dropped when the window is refilled
+    from .. import derived as _derived
+    _derived.report(run, "R05.6", ["CDNS::CdnsDecoder", "CDNS::CdnsReader"])
     check_window_state(run, "R05.5")
     check_input_owner(run, "R05.4")
     check_refill(run, "R05.1")
